@@ -137,7 +137,9 @@ func judgeCoff(cc coffCase, rs []*core.Result, wantC08, wantC09 bool) core.Verdi
 	v.Nontrivial = true
 	b := r.Out
 	f := parseCOFF(b)
-	add := func(facet, dev, detail string) { v.Fails = append(v.Fails, core.Fail{Facet: facet, Dev: dev, Detail: detail}) }
+	add := func(facet, dev, detail string) {
+		v.Fails = append(v.Fails, core.Fail{Facet: facet, Dev: dev, Detail: detail})
+	}
 	if wantC08 {
 		for _, p := range f.Problems {
 			kind := p
@@ -162,6 +164,21 @@ func judgeCoff(cc coffCase, rs []*core.Result, wantC08, wantC09 bool) core.Verdi
 		}
 		if uint32(recs) != f.NumberOfSymbols {
 			add("structure", "symbol_count", fmt.Sprintf("header says %d, records parsed %d", f.NumberOfSymbols, recs))
+		}
+		// external symbols are looked up by name: two records that read back with the same name make the object
+		// ambiguous (a string-table entry shared by two different names shows up here), and every long-name offset
+		// must point at the beginning of a string (offset 4 or just behind a NUL)
+		seenExt := map[string]int{}
+		for _, sy := range f.Symbols {
+			if sy.Class == 2 {
+				seenExt[sy.Name]++
+				if seenExt[sy.Name] == 2 {
+					add("structure", "duplicate_external_name", fmt.Sprintf("two external symbol records read back as %q", sy.Name))
+				}
+			}
+			if sy.LongName && sy.StrOffset > 4 && int(sy.StrOffset-1) < len(f.StringTable) && f.StringTable[sy.StrOffset-1] != 0 {
+				add("structure", "name_offset_inside_a_string", fmt.Sprintf("symbol %q: string-table offset %d does not start a string", sy.Name, sy.StrOffset))
+			}
 		}
 		if len(f.Problems) == 0 {
 			if pf, err := pe.NewFile(bytes.NewReader(b)); err != nil {
